@@ -37,6 +37,19 @@ pub fn col_ref(j: &J) -> ColumnRef {
     }
 }
 
+/// {"n": name | "*", "q": [qualifiers]?}  (also accepts the older "n": [t, c] form)
+pub fn col_of(j: &J) -> ColumnRef {
+    let field = if j.get("n").is_some() { "n" } else { "c" };
+    if let Some(q) = j.get("q").and_then(|x| x.as_array()) {
+        if !q.is_empty() {
+            let mut v: Vec<J> = q.clone();
+            v.push(j[field].clone());
+            return col_ref(&J::Array(v));
+        }
+    }
+    col_ref(&j[field])
+}
+
 pub fn bin_oper(name: &str) -> BinOper {
     match name {
         "And" => BinOper::And,
@@ -102,7 +115,10 @@ pub fn exprs(j: &J) -> Vec<SimpleExpr> {
 }
 
 pub fn func(name: &str, mut args: Vec<SimpleExpr>) -> FunctionCall {
-    let one = |args: &mut Vec<SimpleExpr>| args.remove(0);
+    let one = |args: &mut Vec<SimpleExpr>| {
+        assert!(args.len() == 1, "case error: one-argument function given {} arguments", args.len());
+        args.remove(0)
+    };
     match name {
         "Max" => Func::max(one(&mut args)),
         "Min" => Func::min(one(&mut args)),
@@ -140,7 +156,7 @@ pub fn func(name: &str, mut args: Vec<SimpleExpr>) -> FunctionCall {
 pub fn expr(j: &J) -> SimpleExpr {
     let k = j["k"].as_str().unwrap_or_else(|| panic!("expr.k missing in {j}"));
     match k {
-        "col" => SimpleExpr::Column(col_ref(&j["n"])),
+        "col" => SimpleExpr::Column(col_of(j)),
         "val" => SimpleExpr::Value(to_value(&j["v"])),
         "const" => SimpleExpr::Constant(to_value(&j["v"])),
         "vals" => SimpleExpr::Values(j["vs"].as_array().unwrap().iter().map(to_value).collect()),
